@@ -417,3 +417,56 @@ Definition run_lookup (gs : list ginfo) (ls : list lookup) : val :=
                          | ByNothing => vres (fun g => VZ (g_number g)) (get_group gs None None)
                          | ByQuery q => vz_list (map g_number (get_groups gs q))
                          end) ls).
+
+(* ---- access history on ONE group object -------------------------------------------
+   get_graphic_data keeps what it decoded in self._graphic_data, a dict keyed by the
+   coordinate type: empty on a parsed group (from_dataset / annread), {type: the
+   caller's arrays} on a freshly constructed one.  get_coordinates goes through
+   get_graphic_data.  So the answers of a group object may depend on which accessor
+   was called before; the model carries that cache explicitly.
+   cache = None: nothing decoded yet; Some (cd, gd): gd cached under type cd. *)
+Inductive hop := HAll (cd : Z) | HOne (k cd : Z).
+Inductive hres := RAll (r : res (list annot)) | ROne (r : res annot).
+Definition gcache := option (Z * list annot).
+
+Definition op_cd (o : hop) : Z := match o with HAll cd => cd | HOne _ cd => cd end.
+
+(* get_graphic_data as a state transition; a failed decode caches nothing *)
+Definition cached_graphic_data (e : enc) (c : gcache) (cd : Z) : res (list annot) * gcache :=
+  match c with
+  | Some (cd0, gd) => if cd0 =? cd then (Ok gd, c) else (Err VE, c)
+  | None => match decode e cd with
+            | Ok gd => (Ok gd, Some (cd, gd))
+            | Err k => (Err k, None)
+            end
+  end.
+
+Definition hstep (e : enc) (c : gcache) (o : hop) : hres * gcache :=
+  match o with
+  | HAll cd => let rc := cached_graphic_data e c cd in (RAll (fst rc), snd rc)
+  | HOne k cd =>
+      if k <? 1 then (ROne (Err VE), c)           (* refused before anything is decoded *)
+      else let rc := cached_graphic_data e c cd in (ROne (get_coordinates (fst rc) k), snd rc)
+  end.
+
+Fixpoint run_ops (e : enc) (c : gcache) (ops : list hop) : list hres :=
+  match ops with
+  | [] => []
+  | o :: t => let rc := hstep e c o in fst rc :: run_ops e (snd rc) t
+  end.
+
+(* coordinate type under which the constructor caches the caller's arrays *)
+Definition row_dim (gd : list annot) : Z :=
+  match concat gd with r0 :: _ => zlen r0 | [] => 0 end.
+
+Definition vhres (r : hres) : val :=
+  match r with RAll r => vres vgd r | ROne r => vres vannot r end.
+
+(* one group, built from gd; warm = true: the freshly built object (cache filled by
+   the constructor), warm = false: the same group parsed from its stored attributes;
+   then the accessor calls [ops] in that order on that one object *)
+Definition run_history (dbl : bool) (gt : gtype) (gd : list annot) (warm : bool) (ops : list hop) : val :=
+  match encode dbl gt gd with
+  | Err k => VErr k
+  | Ok e => VL (map vhres (run_ops e (if warm then Some (row_dim gd, gd) else None) ops))
+  end.
